@@ -38,7 +38,7 @@ def main(argv):
     max_shrinks = int(os.environ.get('DDSIM_SHRINKS_PER_BATCH', '3'))
     for idx in range(start, start + count):
         seed = prng.mix(vseed, prop, idx)
-        cfg = profiles.make_cfg(prop, seed, tier, idx)
+        cfg = profiles.make_cfg(prop, seed, tier, idx, vseed)
         t0 = time.perf_counter()
         signal.setitimer(signal.ITIMER_REAL, per_run)
         try:
